@@ -132,6 +132,44 @@ theorem encodeVars_iff {β : Nat → Bool} : ∀ {Vs : List EVar}, (∀ V ∈ Vs
       match a, ha with
       | x :: a, ha => exact ⟨⟨x, ha.1⟩, a, ha.2⟩
 
+/-! ### empty domains -/
+
+theorem inDom_nonempty : ∀ {a : Asg} {ds : List VarDecl}, InDom a ds → ∀ d ∈ ds, d.lb ≤ d.ub
+  | [], [], _, d, hd => by cases hd
+  | x :: a, e :: ds, h, d, hd => by
+    rcases List.mem_cons.1 hd with rfl | hd
+    · have := h.1; omega
+    · exact inDom_nonempty h.2 d hd
+  | [], _ :: _, h, _, _ => h.elim
+  | _ :: _, [], h, _, _ => h.elim
+
+theorem mkVars_decl : ∀ (ds : List VarDecl) (nx : Nat) (d : VarDecl), d ∈ ds →
+    ∃ V ∈ (mkVars ds nx).1, V.lb = d.lb ∧ V.ub = d.ub
+  | e :: ds, nx, d, hd => by
+    simp only [mkVars]
+    rcases List.mem_cons.1 hd with rfl | hd
+    · exact ⟨_, List.mem_cons_self, rfl, rfl⟩
+    · obtain ⟨V, hV, h⟩ := mkVars_decl ds _ d hd
+      exact ⟨V, List.mem_cons_of_mem _ hV, h⟩
+
+/-- a variable with an empty domain makes `_encode_vars` (repaired) unsatisfiable -/
+theorem encodeVars_empty {β : Nat → Bool} {Vs : List EVar} (h : ∃ V ∈ Vs, V.ub < V.lb) :
+    cnfTrue β (encodeVars Vs) = false := by
+  obtain ⟨V, hV, hlt⟩ := h
+  cases hc : cnfTrue β (encodeVars Vs)
+  · rfl
+  · unfold encodeVars at hc
+    have := cnfTrue_flatMap.1 hc V hV
+    have hd : V.dom = [] := by
+      cases hdom : V.dom with
+      | nil => rfl
+      | cons x l =>
+        have : x ∈ V.dom := by rw [hdom]; exact List.mem_cons_self
+        have := EVar.mem_dom.1 this; omega
+    have hl : V.lits.isEmpty = true := by simp [EVar.lits, hd]
+    rw [hl] at this
+    simp [cnfTrue_empty_clause] at this
+
 /-! ### composition -/
 
 theorem encodeCons_exact {Vs : List EVar} : ∀ (cs : List Con) (nx : Nat), (∀ V ∈ Vs, V.Below nx) →
